@@ -49,6 +49,10 @@ def cases(tier, rng):
             for n in (0, 1, 2, 3, 4, 5, 6, 10, 50, 300, 2000):
                 for kind in ('rand', 'text', 'const'):
                     yield {'k': 'nil', 'target': t, 'n': n, 'kind': kind}
+        if rep == 0:
+            for n in (4099, 65539, 200003):          # long inputs
+                yield {'k': 'nil', 'target': None, 'n': n, 'kind': 'text'}
+                yield {'k': 'tlsh', 'cfg': list(CFGS[n % len(CFGS)]), 'n': n, 'kind': 'text', 'force': False}
         for j in range(30):
             yield {'k': 'nil-dist', 'j': j}
         for lo in range(0, 301 if tier == 'quick' else 1201, 20):
